@@ -148,6 +148,8 @@ type Pool struct {
 	N       int
 	Env     []string
 	Timeout time.Duration // per job wall-clock cap (a hung worker is killed; the job gets a Crash result "timeout")
+	Exe     string        // worker executable (default: this binary); the race pass uses the -race build
+	Procs   int           // GOMAXPROCS of the workers (default 1)
 	Crashes int
 	Jobs    int
 	mu      sync.Mutex
@@ -162,6 +164,9 @@ func NewPool(n int) *Pool {
 
 func (p *Pool) start(id int) (*worker, error) {
 	self, _ := os.Executable()
+	if p.Exe != "" {
+		self = p.Exe
+	}
 	logf := filepath.Join(buildDir, "logs", fmt.Sprintf("worker-%s-%d.log", os.Getenv("VCHECK"), id))
 	os.MkdirAll(filepath.Dir(logf), 0o755)
 	lf, err := os.Create(logf)
@@ -169,7 +174,11 @@ func (p *Pool) start(id int) (*worker, error) {
 		return nil, err
 	}
 	cmd := exec.Command(self, "-test.run", "^TestWorker$", "-test.timeout", "0")
-	cmd.Env = append(os.Environ(), "VWORKER=1", "GOMAXPROCS=1", "GODEBUG=asynctimerchan=0", "GOTRACEBACK=single")
+	procs := "1"
+	if p.Procs > 0 {
+		procs = strconv.Itoa(p.Procs)
+	}
+	cmd.Env = append(os.Environ(), "VWORKER=1", "GOMAXPROCS="+procs, "GODEBUG=asynctimerchan=0", "GOTRACEBACK=single")
 	cmd.Env = append(cmd.Env, p.Env...)
 	cmd.Stdout, cmd.Stderr = lf, lf
 	inR, inW, _ := os.Pipe()
